@@ -87,15 +87,67 @@ def run_carried(ctx, rep, n):
                         break
 
 
+def history_case(rng):
+    """random_reference over a continuation: just_once and ordinary templates that SHARE a nickname across tables
+    (or spell a nickname like a table), re-saved into the row history when a run is continued; every reference
+    cell of the whole dataset must name an emitted row."""
+    import yaml
+
+    nick = rng.choice(["Owner", "P", "n1"])
+    t1 = {"object": "T", "nickname": nick, "just_once": True, "count": rng.randint(1, 4), "fields": {"v": 1}}
+    t2 = {"object": "P", "fields": {"v": 2}}
+    if rng.random() < 0.8:
+        t2["nickname"] = nick
+    if rng.random() < 0.3:
+        t2["count"] = 2
+    users = []
+    for i in range(rng.randint(1, 2)):
+        f = {"rr": {"random_reference": rng.choice(["P", "P", "T", nick])}}
+        if rng.random() < 0.4:
+            f["r2"] = {"reference": rng.choice(["P", nick])}
+        users.append({"object": "U", "count": rng.randint(1, 3), "fields": f})
+    rec = [t1, t2] if rng.random() < 0.6 else [t2, t1]
+    rec += users
+    k = rng.randint(2, 4)
+    parts = rng.choice([c for c in __import__("harness.recipes", fromlist=["x"]).all_compositions(k) if len(c) > 1])
+    return {"recipe": yaml.safe_dump(rec, sort_keys=False), "parts": parts, "kind": "history", "seed": rng.randint(0, 10**6)}
+
+
+def run_history_case(rep, case):
+    import random as _random
+
+    _random.seed(case["seed"])
+    chain = l1.run_chain(case["recipe"], case["parts"], trace=False, final_continuation=False)
+    rep.count("history:" + chain.outcome.split(":")[0])
+    rep.case({"recipe": case["recipe"], "parts": case["parts"], "seed": case["seed"]}, nontrivial=chain.outcome == "ok")
+    if chain.outcome != "ok":
+        return
+    rows = [r for run in chain.runs for r in run.rows]
+    seen = {(t, dict(f).get("id")) for t, f in rows}
+    for t, fields in rows:
+        for kf, v in fields:
+            if isinstance(v, dict) and v.get("t") == "ref" and not v["table"].startswith("__"):
+                if not isinstance(v["id"], int) or (v["table"], v["id"]) not in seen:
+                    rep.violation("C02:dangling-ref", f"{t}.{kf} references {v['table']}({v['id']}) which is never emitted (chain {case['parts']})",
+                                  case, "a row of the dataset", v)
+                    return
+
+
 def run(ctx, rep, findings):
     rep.rule = ("as C01, biased to references (every order of referencing vs creating: backward, forward, self, cyclic, "
                 "by nickname, by table name, both slots reserved); reference cells of captured rows checked per "
                 "iteration against the rows emitted so far. Non-trivial: completed, >= 3 rows, uses reference/nested/friends.")
     l1cases.run_l1(ctx, rep, "C02", GEN, ORACLES, findings, 1200, 12000, FIXED)
     run_carried(ctx, rep, ctx.scale(120, 1500))
+    for _ in range(ctx.scale(150, 1500)):
+        run_history_case(rep, history_case(ctx.rng))
+    rep.count("family:random_reference-over-continuation")
 
 
 def replay(case, rep):
+    if case.get("kind") == "history":
+        run_history_case(rep, case)
+        return
     if case.get("kind") == "carried":
         import random
 
@@ -114,6 +166,6 @@ def replay(case, rep):
 
 
 def shrink(case, signature):
-    if case.get("kind") == "carried":
+    if case.get("kind") in ("carried", "history"):
         return case
     return l1cases.shrink_recipe(case, signature, "C02", ORACLES)
